@@ -490,11 +490,12 @@ def gen_mixed_base(rng, cid):
     y, var, pk, meta = synth_data(rng, x, n_peaks, width_steps=rng.uniform(0.55, 1.3), bkg_deg=rng.choice([1, 2]),
                                   shapes=[shape], noise_pow=rng.choice([-6, -5, -4]), height_range=(40, 400))
     c = {'id': cid, 'class': 'mixed', 'x': x, 'y': y, 'var': var, 'grid': 'dyadic', 'truth': pk}
+    full = rng.random() < 0.6      # all three counts 5, 6, 7: a window of 6 points can be fitted by the smallest only
     while True:
-        pks = rng.sample(PEAKS, rng.choice([1, 2, 2, 3]))
-        bks = rng.sample(['linear', 'quadratic'], rng.choice([1, 2, 2, 2]))
+        pks = rng.sample(PEAKS, rng.choice([2, 2, 3] if full else [1, 2, 2, 3]))
+        bks = rng.sample(['linear', 'quadratic'], 2 if full else rng.choice([1, 2, 2, 2]))
         counts = sorted({NPAR[p_] + NPAR_B[b_] for p_ in pks for b_ in bks})
-        if len(counts) >= 2 and len(pks) * len(bks) >= 2:
+        if len(counts) >= (3 if full else 2) and len(pks) * len(bks) >= 2:
             break
     kmin, kmax = counts[0], counts[-1]
 
@@ -516,6 +517,8 @@ def gen_mixed_base(rng, cid):
     idx = sorted(set(idx))
 
     def target():
+        if kmax - kmin >= 2 and rng.random() < 0.45:
+            return kmin + 1       # one spare point for the smallest combination, too few for the largest
         return rng.choice([kmin - 2, kmin - 1, kmin, kmin, kmin + 1, kmin + 1, kmax - 1, kmax, kmax, kmax + 1, kmax + 2])
     if rng.random() < 0.5:
         t = target()
@@ -534,7 +537,7 @@ def gen_mixed_base(rng, cid):
         c['windows'] = {'explicit': wl}
         c['target_points'] = ts
     c['fp'] = None if rng.random() < 0.6 else {'f': rng.choice([0.5, 0.4375, 0.625]), 's': rng.choice([1 / 3, 0.25, 0.125])}
-    c['fr'] = {'min_p': rng.choice([0.0, 0.0, 1e-6, 0.01, 0.05]), 'maxf': rng.choice([1.0, 1.0, 2.0]),
+    c['fr'] = {'min_p': rng.choice([0.0, 0.0, 0.0, 1e-6, 0.01]), 'maxf': rng.choice([1.0, 1.0, 2.0]),
                'minf': rng.choice([1.0, 0.5, 0.5, 0.0])}
     c['remove_synth'] = gen_synth_removals(rng, x, 1) if rng.random() < 0.5 else []
     c['solo'] = True
